@@ -1,4 +1,5 @@
 """C11 — EC: rejection obligations in every implementation + curve constants against SEC 2 / RFC 7748 (DESIGN §4 C11)."""
+import re
 from .. import build, report, oblig, tab, irf
 from ..oblig import Ob, Call, ICall, Var, RET, ALL, NOCALL
 from .c13 import cmp_table
@@ -496,6 +497,74 @@ def rfc6979_inputs(chk):
     chk.floor('RFC 6979 signers', n, 2)
 
 
+def c25519_scalar_right_aligned(chk, rule='c25519-scalar-right-aligned'):
+    """X25519 api_mul of all six implementations: the caller's scalar kb[0..kblen) is big-endian and may be shorter than 32 bytes; it is
+    copied to the END of the 32-byte work buffer k (address k + sizeof k - kblen) and the bytes before it are zeroed (memset of
+    sizeof k - kblen at k).  Left-aligning it multiplies by kb * 256^(32-kblen) instead."""
+    from .. import wmw
+    P = wmw.program()
+    n = 0
+
+    def aff(F, o, depth=0):
+        """(base alloca id | None, const, coef of param 3)"""
+        if depth > 8:
+            return None
+        if o['k'] == 'c':
+            return (None, o['v'] if o['v'] < 2 ** 63 else o['v'] - 2 ** 64, 0)
+        if o['k'] == 'a':
+            return (None, 0, 1) if o['v'] == 3 else None
+        i = F.insts[o['v']]
+        if i['op'] in ('bitcast', 'zext', 'sext', 'trunc'):
+            return aff(F, i['ops'][0], depth + 1)
+        if i['op'] == 'alloca':
+            return (i['id'], 0, 0)
+        if i['op'] in ('add', 'sub'):
+            x, y = aff(F, i['ops'][0], depth + 1), aff(F, i['ops'][1], depth + 1)
+            if x is None or y is None or y[0] is not None:
+                return None
+            sg = 1 if i['op'] == 'add' else -1
+            return (x[0], x[1] + sg * y[1], x[2] + sg * y[2])
+        if i['op'] == 'getelementptr':
+            b = aff(F, i['ops'][0], depth + 1)
+            if b is None:
+                return None
+            c, k = b[1] + (i.get('off') or 0), b[2]
+            for v, sc in (i.get('var') or []):
+                x = aff(F, v, depth + 1)
+                if x is None or x[0] is not None:
+                    return None
+                c, k = c + sc * x[1], k + sc * x[2]
+            return (b[0], c, k)
+        return None
+    for (un, fn), F in sorted(P.static.items()):
+        f = F.file().replace(build.REPO + '/', '')
+        if fn != 'api_mul' or not f.startswith('src/ec/ec_c25519_'):
+            continue
+        n += 1
+        cp = [c for c in F.calls() if (c.get('callee') or '').startswith(('llvm.memcpy', 'memcpy')) and F.strip_casts(c['ops'][1]) == {'k': 'a', 'v': 2}]
+        inst = '%s api_mul: scalar copied to k + sizeof k - kblen, leading bytes zeroed' % f
+        if len(cp) != 1:
+            raise AnalysisBroken('%s: %d copies from kb in api_mul' % (f, len(cp)))
+        d = aff(F, cp[0]['ops'][0])
+        if d is None or d[0] is None:
+            raise AnalysisBroken('%s: destination of the scalar copy is not an affine offset into a local buffer' % f)
+        A = F.insts[d[0]]
+        m = re.match(r'\[(\d+) x i8\]', A.get('aty') or '')
+        if not m:
+            raise AnalysisBroken('%s: scalar buffer is not a byte array' % f)
+        N = int(m.group(1))
+        ms = [c for c in F.calls() if (c.get('callee') or '').startswith(('llvm.memset', 'memset')) and (aff(F, c['ops'][0]) or (None,))[0] == d[0]]
+        zs = [(aff(F, c['ops'][0]), aff(F, c['ops'][2])) for c in ms]
+        if (d[1], d[2]) != (N, -1):
+            chk.violation(rule, inst, F.where(cp[0]), 'the scalar is copied to k + %d %+d*kblen, not to k + %d - kblen: a scalar shorter than %d bytes is not right-aligned' % (d[1], d[2], N, N), key='%s %s' % (rule, f))
+        elif not any(z[0][1:] == (0, 0) and z[1] is not None and z[1][1:] == (N, -1) for z in zs):
+            chk.violation(rule, inst, F.where(cp[0]), 'the %d - kblen leading bytes of k are not zeroed by a memset at k' % N, key='%s %s' % (rule, f))
+        else:
+            chk.ok(rule, inst, F.where(cp[0]), 'copy to k + %d - kblen; memset(k, 0, %d - kblen)' % (N, N))
+    if n < 6:
+        raise AnalysisBroken('%s: %d X25519 api_mul functions found, expected 6' % (rule, n))
+
+
 def run(tier):
     chk = report.Check('C11', tier,
                        'Static: (1) curve constants of every implementation (field primes, Montgomery constants R^2 and b*R in the i15/i31 word '
@@ -516,6 +585,7 @@ def run(tier):
     rs_nonzero(chk)
     muladd_zero_test(chk)
     rfc6979_inputs(chk)
+    c25519_scalar_right_aligned(chk)
     conj = []
     for w in ('i15', 'i31'):
         conj.append(('src/ec/ec_prime_%s.c' % w, 'point_decode', 'r', 'and', 3, 'decode results, format byte and curve equation are conjuncts'))
